@@ -67,6 +67,25 @@ def handlers : List (String × Handler) := [
       | [.tstr l0, v0, .tstr l1, v1, .tstr l2] => showRes (fmtString name l0 v0 l1 v1 l2)
       | _ => "bad-request"
     | _ => "bad-request"),
+  -- ROUND 2: `c13.fmtn <name> (L <vx> | I <vx>)*` — any interleaving of literal and interpolated parts
+  ("c13.fmtn", fun toks =>
+    match toks with
+    | name :: rest =>
+      let rec go (fuel : Nat) (toks : List String) (acc : List FmtPart) : Option (List FmtPart) :=
+        match fuel, toks with
+        | _, [] => some acc.reverse
+        | 0, _ => none
+        | fuel + 1, tag :: rest =>
+          match Val.parseVXs rest 1 with
+          | some ([v], rest') =>
+            if tag == "L" then (match v with | .tstr l => go fuel rest' (.lit l :: acc) | _ => none)
+            else if tag == "I" then go fuel rest' (.interp v :: acc)
+            else none
+          | _ => none
+      match go (rest.length + 1) rest [] with
+      | some parts => showRes (fmtStringN name parts)
+      | none => "bad-request"
+    | _ => "bad-request"),
   ("c13.rx", fun toks =>
     match toks with
     | kind :: g :: n :: rest =>
@@ -80,6 +99,14 @@ def handlers : List (String × Handler) := [
           | none => "bad-request"
         | none => "bad-request"
       | _ => "bad-request"
+    | _ => "bad-request"),
+  -- ROUND 2: the engine contract (ordered, inside, on character boundaries) evaluated on a real engine result
+  ("c13.rxc", fun toks =>
+    match Val.parseVXs toks 1 with
+    | some ([.tstr s], rest') =>
+      match parseCaps rest' with
+      | some caps => if contractB s caps then "T" else "F"
+      | none => "bad-request"
     | _ => "bad-request")
 ]
 
